@@ -53,7 +53,7 @@ func (p *concParty) HandleErrorMessage(code otr3.ErrorCode) []byte {
 
 // one pair doing handshake, traffic, errors, SMP, fragmentation and teardown; the transcript
 // contains everything that is deterministic given the seed (DSA signatures are not: wire bytes omitted)
-func concRun(seed int64) ([]string, []otr3.ValidMessage) {
+func concRun(seed int64, barrier func()) ([]string, []otr3.ValidMessage) {
 	r := rand.New(rand.NewSource(seed))
 	var log []string
 	pairTag := fmt.Sprintf("%x", uint32(seed)&0xffff)
@@ -179,6 +179,31 @@ func concRun(seed int64) ([]string, []otr3.ValidMessage) {
 			held = append(held, back...)
 		}
 	}
+	// fingerprints and an SMP run while every other pair does the same (the barrier lines the
+	// goroutines up): anything computed through state shared between conversations shows up as a
+	// wrong fingerprint or a failed authentication
+	barrier()
+	if a.c.IsEncrypted() && b.c.IsEncrypted() {
+		var first string
+		wrong := 0
+		for k := 0; k < 3000; k++ {
+			fp := fmt.Sprintf("%x|%x", a.c.GetTheirKey().Fingerprint(), b.c.GetTheirKey().Fingerprint())
+			if k == 0 {
+				first = fp
+			} else if fp != first {
+				wrong++
+			}
+		}
+		log = append(log, fmt.Sprintf("fingerprints %s, %d of 3000 repetitions differ", first, wrong))
+		ts, err := a.c.StartAuthenticate("", []byte("one more secret"))
+		log = append(log, fmt.Sprintf("%s smpstart err=%s", a.tag, otr3.VerifErrClass(err)))
+		push(a, ts)
+		settle()
+		ts, err = b.c.ProvideAuthenticationSecret([]byte("one more secret"))
+		log = append(log, fmt.Sprintf("%s smpsecret err=%s", b.tag, otr3.VerifErrClass(err)))
+		push(b, ts)
+		settle()
+	}
 	_ = io.EOF
 	return log, held
 }
@@ -207,7 +232,7 @@ func init() {
 		solo := make([][]string, n)
 		for i := 0; i < n; i++ {
 			// alone: the replies are looked at again before any other conversation exists
-			lg, held := concRun(seed*100000 + int64(i))
+			lg, held := concRun(seed*100000+int64(i), func() {})
 			solo[i] = append(lg, heldLines(held)...)
 			for _, l := range solo[i] {
 				if strings.HasPrefix(l, "held reply") || strings.Contains(l, "recv damaged") {
@@ -227,6 +252,20 @@ func init() {
 			conc := make([][]string, n)
 			heldAll := make([][]otr3.ValidMessage, n)
 			var wg sync.WaitGroup
+			// a barrier for the last phase: everybody waits until all n pairs have arrived (a pair that
+			// panicked before has arrived as well, see the deferred call)
+			var bmu sync.Mutex
+			arrived := 0
+			gate := make(chan struct{})
+			barrier := func() {
+				bmu.Lock()
+				arrived++
+				if arrived == n {
+					close(gate)
+				}
+				bmu.Unlock()
+				<-gate
+			}
 			for i := 0; i < n; i++ {
 				wg.Add(1)
 				go func(i int) {
@@ -236,7 +275,18 @@ func init() {
 							conc[i] = []string{fmt.Sprint("PANIC ", r)}
 						}
 					}()
-					conc[i], heldAll[i] = concRun(seed*100000 + int64(i))
+					reached := false
+					defer func() {
+						if !reached {
+							bmu.Lock()
+							arrived++
+							if arrived == n {
+								close(gate)
+							}
+							bmu.Unlock()
+						}
+					}()
+					conc[i], heldAll[i] = concRun(seed*100000+int64(i), func() { reached = true; barrier() })
 				}(i)
 			}
 			wg.Wait()
